@@ -103,6 +103,28 @@ def special_expr(rng):
     recs = ["list", [["dict", [[C("a"), C(1)], [C("b"), C(2)]]], ["dict", [[C("a"), C(1)], [C("b"), C(3)]]],
                      ["dict", [[C("a"), C(2)], [C("b"), C(4)]]]]]
     grouped = ["filter", recs, "groupby", [C("a")], []]
+    sens = lambda: rng.choice([
+        ["bin", "~", F(C("<i>"), "safe"), C("<b>")], ["bin", "~", C("<b>"), F(C("<i>"), "safe")],
+        F(["list", [F(C("<i>"), "safe"), C("<b>")]], "join"), ["bin", "+", F(C("<u>"), "safe"), C("&")],
+    ])
+    N_ = lambda n: ["name", n]
+    if rng.random() < 0.35:
+        # autoescape-sensitive constants (a) nested in list-valued fields of a larger expression
+        # that is not constant, (b) passed to a constant filter call BY KEYWORD
+        return rng.choice([
+            F(["list", [sens(), N_("i1")]], "join"),
+            F(["list", [N_("s1"), sens(), sens()]], "join", C("|")),
+            ["bin", "~", ["call", ["attr", N_("s1"), "strip"], [], []], sens()],
+            ["filter", ["list", [C("a"), C("b")]], "join", [], [["d", sens()]]],
+            ["filter", ["list", [C("a"), N_("s1")]], "join", [], [["d", sens()]]],
+            ["filter", C("a-b"), "replace", [C("-")], [["new", sens()]]],
+            ["filter", C("a-b"), "replace", [], [["old", C("-")], ["new", sens()]]],
+            ["filter", N_("u1"), "default", [], [["default_value", sens()]]],
+            ["dict", [[C("k"), sens()], [C("j"), N_("i1")]]],
+            ["cond", sens(), N_("b1"), sens()],
+            ["test", sens(), "eq", [sens()], False],
+            ["call", ["attr", C("{}-{}"), "format"], [sens(), N_("i1")], []],
+        ])
     return rng.choice([
         # filters on constants whose result is a SUBCLASS of a builtin container / str
         ["attr", F(grouped, "first"), "grouper"], ["attr", F(grouped, "last"), "list"],
